@@ -154,7 +154,8 @@ fn plain_len_offsets(plain: &[u8], v5: bool) -> Vec<usize> {
 /// hand-framed bases (c16::raw_requests) get the light sweep: the datagram itself and the
 /// length-field edits (their lengths are already enumerated exhaustively by the base set)
 fn is_raw_base(req: &Req) -> bool {
-    req.fields.iter().any(|f| match f {
+    req.mac_head != 0
+        || req.fields.iter().any(|f| match f {
         Fld::Raw(..) | Fld::RawAuth(..) => true,
         Fld::Auth(_, inner) => inner.iter().any(|g| matches!(g, Fld::Raw(..))),
         _ => false,
@@ -338,6 +339,8 @@ fn bases(thorough: bool) -> Vec<Req> {
         out.push(Req::parse(code).expect("curated base"));
     }
     out.extend(raw_requests());
+    // extension-field-like MAC trailers (light sweep as well)
+    out.extend(super::c16::trailer_requests().into_iter().filter(|r| r.mac_head != 0));
     out
 }
 
@@ -481,7 +484,7 @@ fn check() {
     }
     let thorough = !ctx.quick();
     ctx.rule(
-        "bases: v3 tails, the 10 998 hand-framed/unaligned-field requests of c16::raw_requests() (light sweep: itself + length-field edits), every word of <=1 extension-field symbol of the c16.rs alphabets for v4/v5 (thorough: <=2), 30 curated plain/NTS layouts \
+        "bases: v3 tails, the extension-field-like MAC trailers of c16::trailer_requests() and the 10 998 hand-framed/unaligned-field requests of c16::raw_requests() (light sweep: itself + length-field edits), every word of <=1 extension-field symbol of the c16.rs alphabets for v4/v5 (thorough: <=2), 30 curated plain/NTS layouts \
          (valid cookies under current/previous/expired keys, placeholders, both AEADs, 8/16/32-byte nonces, non-client modes); per base: the datagram itself, \
          every byte offset x {0x00,0xFF,^0x80,^0x01}, every 16-bit length field x {-4..-1,+1..+4,0,0xFFFF}, every truncation, 1/3/4/24/25/100 trailing bytes, \
          and (valid NTS bases) the same byte/length edits on the plaintext before encryption; each x {request-sized, 4096-byte} buffer x 8 configurations x \
